@@ -2,6 +2,7 @@
 TLC-generated + seeded schedules executed on the real fw.Thread, trace validation per property."""
 import os, threading, time, json
 from lib import vlib as V
+from checks import node as N
 
 FACES_CFG = """SPECIFICATION TSpec
 CONSTANTS
@@ -84,11 +85,34 @@ def is_table_segment(path):
     return any("shape" in r for r in rows[:3])
 
 
+def is_node_segment(path):
+    rows = V.read_ndjson(path)
+    return bool(rows) and rows[0].get("ev") == "Reset" and "nt" in rows[0]
+
+
+def run_node_replay(pid, tier, replay):
+    """--replay of a violation found by the node stage: re-execute the inputs on the real node, validate again"""
+    wd = V.workdir(pid)
+    binary = V.build_harness(wd)
+    nd = N.stage(pid, tier, os.path.join(wd, "node"), binary, replay=replay)
+    rc = 0
+    for f in nd["known"]:
+        print("KNOWN-FINDING: property=%s %s" % (pid, f["what"]))
+    for v in nd["viols"]:
+        path = V.save_violation(pid, v["segment"], {"rule": v["rule"], "event": v["segment"][-1], "model_state_before": v["state"]})
+        print("VIOLATION property=%s replay=%s" % (pid, path))
+        V.log("  rule %s violated at event %d of an execution: %s" % (v["rule"], v["index"], json.dumps(v["segment"][-1])[:600]))
+        rc = 1
+    return rc
+
+
 def run(pid, tier, replay=None):
     t0 = time.time()
     if pid == "C08" and replay and is_table_segment(replay):
         from checks import tables as T
         return T.run("C08", tier, replay=replay)
+    if replay and is_node_segment(replay):
+        return run_node_replay(pid, tier, replay)
     wd = V.workdir(pid)
     V.copy_spec("forwarder", wd)
     thorough = tier == "thorough"
@@ -176,6 +200,18 @@ def run(pid, tier, replay=None):
         for k, x in tbl["mc"].items():
             mc["tables-" + k] = x
 
+    # ---- 3c. the node: NT real threads behind the real dispatch of real link services (spec/forwarder/Node.tla)
+    nd = None
+    if not replay and pid in N.RULES:
+        nd = N.stage(pid, tier, os.path.join(wd, "node"), binary)
+        viols += nd["viols"]
+        accepted += nd["accepted"]
+        events += nd["events"]
+        for k, x in nd["mc"].items():
+            mc[k] = x
+        for f in nd["known"]:
+            print("KNOWN-FINDING: property=%s %s" % (pid, f["what"]))
+
     # ---- 4. verdict
     states = sum(x.distinct for x in mc.values())
     trans = sum(x.generated for x in mc.values())
@@ -185,6 +221,8 @@ def run(pid, tier, replay=None):
     if blocked:
         raise V.Machinery("trace not followable by the module (drift, no property verdict): %s" % json.dumps(blocked)[:1500])
     nt = sum(1 for (_, ex) in execs if nontrivial(pid, ex))
+    if nd:
+        nt += sum(1 for (_, ex) in nd["execs"] if N.nontrivial(pid, ex))
     samples = [ex[:6] for (_, ex) in execs[:2]]
     rc = 0
     for v in viols:
@@ -198,9 +236,13 @@ def run(pid, tier, replay=None):
         "evaluations": events, "distinct_nontrivial": nt,
         "rule": "executions of the real fw.Thread (TLC -simulate schedules of ForwarderGen + seeded generator), each validated by TLC "
                 "against ForwarderTrace with the rules %s; non-trivial = execution contains a step the property constrains "
-                "(C01: Data with >=1 copy sent; C02: Interest forwarded; C07: cache hit; C08: reaper removed an entry; C09: /localhost packet)" % " ".join(RULES[pid]),
-        "samples": samples, "tlc_schedules": nsched, "model_checking": {k: {"distinct": x.distinct, "generated": x.generated, "depth": x.depth, "wall_s": round(x.wall, 1)} for k, x in mc.items()},
-        "checker_cmd": "tlc ForwarderMC.tla (exhaustive, depth-bounded) ; tlc -workers 1 ForwarderTrace.tla (trace validation)",
+                "(C01: Data with >=1 copy sent; C02: Interest forwarded; C07: cache hit; C08: reaper removed an entry; C09: /localhost packet); "
+                "node stage (not C07): executions of a node of 1..8 real forwarding threads in loop mode behind real NDNLPv2 link services over in-memory "
+                "transports (frames in, frames out), validated against NodeTrace" % " ".join(RULES[pid]),
+        "samples": samples + ([nd["execs"][0][1][:6]] if nd and nd["execs"] else []), "tlc_schedules": nsched,
+        "known_findings": [f["id"] for f in nd["known"]] if nd else [],
+        "node_stage": ({"executions": len(nd["execs"]), "rules": N.RULES[pid]} if nd else {}), "model_checking": {k: {"distinct": x.distinct, "generated": x.generated, "depth": x.depth, "wall_s": round(x.wall, 1)} for k, x in mc.items()},
+        "checker_cmd": "tlc ForwarderMC.tla, NodeMC.tla (exhaustive, depth-bounded) ; tlc -workers 1 ForwarderTrace.tla, NodeTrace.tla (trace validation)",
         "exhaustive": False},
         time.time() - t0, violations=len(viols),
         assumptions=["TLC, JVM, Go runtime and testing/synctest are trusted", "hooks project the PIT/CS tree faithfully (fw/table/verif_hooks.go)",
